@@ -146,3 +146,12 @@ Proof.
   unfold slice. destruct (_ && _); [|discriminate]. intros H E. inversion E; subst.
   apply bytes_firstn, bytes_skipn, H.
 Qed.
+
+Lemma forallb_forall_N (l : list N) : forallb (fun b => (b <? 256)%N) l = true -> Forall (fun x => (x <? 256)%N = true) l.
+Proof. intros H. rewrite Forall_forall. now apply forallb_forall. Qed.
+
+Lemma bytes_forallb (l : list N) : forallb (fun b => (b <? 256)%N) l = true -> bytes l.
+Proof.
+  intros H. unfold bytes. rewrite Forall_forall. intros x Hx. unfold isbyte.
+  apply N.ltb_lt. revert x Hx. apply forallb_forall. exact H.
+Qed.
